@@ -4,3 +4,9 @@ Require Import V.Base.Prelude V.Api.Emit V.gen.EmitSrc.
 
 Lemma emit_src_is_model : emit_src = emit_atoms.
 Proof. reflexivity. Qed.
+
+(* EIncMatched is one atomic 64-bit add of 1: the body of IncMatchedPairs as the translator reads it
+   (an add of another width or amount, a plain increment or anything else gives another text) *)
+Require Import Coq.Strings.String.
+Lemma inc_matched_is_one_atomic_add : inc_matched_src = ["AAdd 1"%string].
+Proof. reflexivity. Qed.
